@@ -212,7 +212,24 @@ def rule_u2(ctx):
     pg = ctx.body(PUSH_GATE)
     ins = [b for b, t in pg.calls() if mir.last_seg(mir.callee(t) or "") == "insert" and any(p and p[-1] == "cache" for (r, p) in pg.trace_operand(t["args"][0]))]
     if ins:
-        res.ok({"function": "push_gate", "verdict": "emitted gates are entered into the cache"})
+        # ... on every path on which de-duplication is switched on
+        rets = [b for b in range(pg.n) if pg.term(b) and pg.term(b)["k"] == "return"]
+        sw = []
+        for b in range(pg.n):
+            tt = pg.term(b)
+            if tt and tt["k"] == "switch" and tt["discr"]["k"] in ("copy", "move") and any(p and p[-1] == "cache_gates" for (r, p) in pg.trace_operand(tt["discr"])):
+                zero_t = {tg for v, tg in tt["targets"] if v == 0}
+                sw += [x for x in pg.succs(b) if x not in zero_t]
+        if not sw:
+            raise AnchorMissing("U2: push_gate does not test opts.cache_gates")
+        w = None
+        for s0 in sw:
+            w = w or pg.path(s0, rets, blocked=set(ins), succ=lambda x: [y for y in pg.succs(x) if not pg.blocks[y]["cleanup"]])
+        if w:
+            res.bad(Finding("U2", PUSH_GATE, "an emitted gate can stay out of the cache", "with de-duplication on, a path through push_gate returns without entering the new gate into the cache (blocks %s): "
+                            "the same gate is emitted again when it is requested later" % w, pg.term(ins[0])["sp"]))
+        else:
+            res.ok({"function": "push_gate", "verdict": "emitted gates are entered into the cache on every path with de-duplication on"})
     else:
         res.bad(Finding("U2", PUSH_GATE, "emitted gates are not cached", "push_gate never inserts into the cache: no sharing", pg.fn["sp"]))
     return res
